@@ -9,6 +9,10 @@ from .env import make_target
 from .runner import default_scenario
 
 
+# preconditioning choices incl. the flow-based map (with the stub back-end a refit costs microseconds)
+PRECONDS_WITH_FLOW = (None, "none", "default", "logit", "probit", "affine", "both", "flow")
+
+
 def pick(rng, options, p=None):
     i = int(rng.choice(len(options), p=p))
     return options[i]
